@@ -665,3 +665,148 @@ Proof.
   repeat constructor; rewrite ?T1, ?T3, ?T4, ?S1, ?S3, ?S4, ?(inv0_nz (1 - y) Hx); field; repeat split; assumption.
 Qed.
 End PairBased.
+
+(* ====================================================================== *)
+(* heterogeneous pairwise                                                  *)
+(* ====================================================================== *)
+Lemma Qmult_nz a b : ~ a == 0 -> ~ b == 0 -> ~ a * b == 0.
+Proof. intros Ha Hb H. apply Qmult_integral in H. tauto. Qed.
+
+Section HetPair.
+Variables (tau gamma : Q) (Ks : vec).
+Notation kc := (length Ks).
+
+(* layout *)
+Lemma hpSIS_layout X Nk NkNl t i j : (i < kc)%nat -> (j < kc)%nat ->
+  let D := dSIS_heterogeneous_pairwise X Nk NkNl tau gamma Ks t in
+  vnth i D = hs_dSk X Nk tau gamma Ks i /\
+  vnth (kc + i * kc + j) D = hs_dSkSl X tau gamma Ks i j /\
+  vnth (kc + kc * kc + i * kc + j) D = hs_dSkIl X NkNl tau gamma Ks i j.
+Proof.
+  intros Hi Hj D. unfold D, dSIS_heterogeneous_pairwise, hs_kc, vnth. repeat split.
+  - rewrite nth_app_lt by (rewrite tab_length; exact Hi). apply nth_tab. exact Hi.
+  - replace (kc + i * kc + j)%nat with (kc + (i * kc + j))%nat by lia. rewrite nth_app_at by apply tab_length.
+    rewrite nth_app_lt by (rewrite tab2_length; nia). apply nth_tab2; assumption.
+  - replace (kc + kc * kc + i * kc + j)%nat with (kc + (kc * kc + (i * kc + j)))%nat by lia.
+    rewrite nth_app_at by apply tab_length. rewrite nth_app_at by apply tab2_length. apply nth_tab2; assumption.
+Qed.
+Lemma hpSIR_layout X t i j : (i < kc)%nat -> (j < kc)%nat ->
+  let D := dSIR_heterogeneous_pairwise X tau gamma Ks t in
+  vnth i D = hr_dSk X tau Ks i /\ vnth (kc + i) D = hr_dIk X tau gamma Ks i /\
+  vnth (2 * kc + i * kc + j) D = hr_dSkSl X tau Ks i j /\
+  vnth (2 * kc + kc * kc + i * kc + j) D = hr_dSkIl X tau gamma Ks i j.
+Proof.
+  intros Hi Hj D. unfold D, dSIR_heterogeneous_pairwise, hr_kc, vnth. repeat split.
+  - rewrite nth_app_lt by (rewrite tab_length; exact Hi). apply nth_tab. exact Hi.
+  - rewrite nth_app_at by apply tab_length. rewrite nth_app_lt by (rewrite tab_length; exact Hi). apply nth_tab. exact Hi.
+  - replace (2 * kc + i * kc + j)%nat with (kc + (kc + (i * kc + j)))%nat by lia. rewrite !nth_app_at by apply tab_length.
+    rewrite nth_app_lt by (rewrite tab2_length; nia). apply nth_tab2; assumption.
+  - replace (2 * kc + kc * kc + i * kc + j)%nat with (kc + (kc + (kc * kc + (i * kc + j))))%nat by lia.
+    rewrite !nth_app_at by apply tab_length. rewrite nth_app_at by apply tab2_length. apply nth_tab2; assumption.
+Qed.
+
+(* C06.  SIS: [I_k] = N_k - [S_k] and [I_k I_l] = N_kl - [S_k S_l] - [S_k I_l] - [I_k S_l] are not coordinates, the returned
+   tuple rebuilds them by subtraction (structural conservation); what the right-hand side must preserve is the symmetry
+   [S_k S_l] = [S_l S_k] that the subtraction relies on.  SIR: [R_k] = N_k - [S_k] - [I_k] grows at rate gamma [I_k]. *)
+Lemma hpSIS_dSkSl_sym X i j : hs_dSkSl X tau gamma Ks i j == hs_dSkSl X tau gamma Ks j i.
+Proof. unfold hs_dSkSl. ring. Qed.
+Lemma hpSIR_dSkSl_sym X i j : hr_dSkSl X tau Ks i j == hr_dSkSl X tau Ks j i.
+Proof. unfold hr_dSkSl. ring. Qed.
+Lemma hpSIR_conserve X i : hr_dSk X tau Ks i + hr_dIk X tau gamma Ks i == - gamma * hr_Ik X Ks i.
+Proof. unfold hr_dSk, hr_dIk. ring. Qed.
+Lemma hpSIR_sign_dS X i : 0 <= tau -> Forall (fun x => 0 <= x) X -> hr_dSk X tau Ks i <= 0.
+Proof.
+  intros Ht HX. unfold hr_dSk.
+  assert (H : 0 <= hr_SkI X Ks i) by (unfold hr_SkI; apply sumn_nonneg; intros j _; apply nonneg_vnth; exact HX).
+  assert (H2 : 0 <= tau * hr_SkI X Ks i) by (apply Qmult_le_0_compat; assumption). lra.
+Qed.
+Lemma hpSIS_layout_Sk X Nk NkNl t i : (i < kc)%nat ->
+  vnth i (dSIS_heterogeneous_pairwise X Nk NkNl tau gamma Ks t) = hs_dSk X Nk tau gamma Ks i.
+Proof.
+  intros Hi. unfold dSIS_heterogeneous_pairwise, hs_kc, vnth.
+  rewrite nth_app_lt by (rewrite tab_length; exact Hi). apply nth_tab. exact Hi.
+Qed.
+Lemma hpSIS_sum_dSk X Nk NkNl t :
+  let D := dSIS_heterogeneous_pairwise X Nk NkNl tau gamma Ks t in
+  sumn kc (fun i => vnth i D) == gamma * sumn kc (hs_Ik X Nk) - tau * sumn kc (hs_SkI X Ks).
+Proof.
+  intros D. rewrite <- !sumn_scal, <- sumn_sub. apply sumn_ext. intros i Hi.
+  unfold D. rewrite hpSIS_layout_Sk by exact Hi. reflexivity.
+Qed.
+End HetPair.
+
+(* C08 tau = 0 *)
+Lemma hpSIS_tau0 X Nk gamma Ks i : hs_dSk X Nk 0 gamma Ks i == gamma * hs_Ik X Nk i.
+Proof. unfold hs_dSk. ring. Qed.
+Lemma hpSIR_tau0 X gamma Ks i : hr_dSk X 0 Ks i == 0 /\ hr_dIk X 0 gamma Ks i == - gamma * hr_Ik X Ks i.
+Proof. unfold hr_dSk, hr_dIk. split; ring. Qed.
+
+(* C08 gamma = 0: SIS state Sk ++ M (M = SkSl ++ SkIl), SIR state Sk ++ Ik ++ M; where no guard fires
+   (k [S_k] <> 0 for every class) the S-subsystems have the same right-hand side *)
+Lemma hp_gamma0 Sk Ik M Nk NkNl tau Ks i j :
+  length Sk = length Ks -> length Ik = length Ks ->
+  (forall l, (l < length Ks)%nat -> ~ vnth l Ks == 0 /\ ~ vnth l Sk == 0) ->
+  (i < length Ks)%nat -> (j < length Ks)%nat ->
+  let Xs := Sk ++ M in let Xr := Sk ++ Ik ++ M in
+  hs_dSk Xs Nk tau 0 Ks i == hr_dSk Xr tau Ks i /\
+  hs_dSkSl Xs tau 0 Ks i j == hr_dSkSl Xr tau Ks i j /\
+  hs_dSkIl Xs NkNl tau 0 Ks i j == hr_dSkIl Xr tau 0 Ks i j.
+Proof.
+  intros LS LI Hnz Hi Hj Xs Xr. set (kc := length Ks) in *.
+  assert (ES : forall l, (l < kc)%nat -> hs_Sk Xs l = hr_Sk Xr l).
+  { intros l Hl. unfold hs_Sk, hr_Sk, Xs, Xr, vnth. rewrite !nth_app_lt by lia. reflexivity. }
+  assert (ESS : forall a b, hs_SkSl Xs Ks a b = hr_SkSl Xr Ks a b).
+  { intros a b. unfold hs_SkSl, hr_SkSl, hs_kc, hr_kc, Xs, Xr, vnth. fold kc.
+    replace (kc + a * kc + b)%nat with (kc + (a * kc + b))%nat by lia.
+    replace (2 * kc + a * kc + b)%nat with (kc + (kc + (a * kc + b)))%nat by lia.
+    rewrite !nth_app_at by assumption. reflexivity. }
+  assert (ESI : forall a b, hs_SkIl Xs Ks a b = hr_SkIl Xr Ks a b).
+  { intros a b. unfold hs_SkIl, hr_SkIl, hs_kc, hr_kc, Xs, Xr, vnth. fold kc.
+    replace (kc + kc * kc + a * kc + b)%nat with (kc + (kc * kc + a * kc + b))%nat by lia.
+    replace (2 * kc + kc * kc + a * kc + b)%nat with (kc + (kc + (kc * kc + a * kc + b)))%nat by lia.
+    rewrite !nth_app_at by assumption. reflexivity. }
+  assert (EI : forall l, hs_SkI Xs Ks l == hr_SkI Xr Ks l).
+  { intros l. unfold hs_SkI, hr_SkI, hs_kc, hr_kc. apply sumn_ext. intros b _. rewrite ESI. reflexivity. }
+  assert (ED : forall l, (l < kc)%nat -> hs_kxSk Xs Ks l == hr_den Xr Ks l).
+  { intros l Hl. destruct (Hnz l Hl) as [HK HS]. unfold hs_kxSk, hr_den. rewrite <- (ES l Hl).
+    assert (HS' : ~ hs_Sk Xs l == 0) by (unfold hs_Sk, Xs, vnth; rewrite nth_app_lt by lia; exact HS).
+    rewrite !guard0_nz; [ring| | |].
+    - intro H. apply HS'. lra.
+    - intro H. apply HK. lra.
+    - apply Qmult_nz; [exact HK|]. intro H. apply HS'. lra. }
+  assert (E3 : forall a b, (b < kc)%nat -> hs_SkSlI Xs Ks a b == hr_SkSlI Xr Ks a b).
+  { intros a b Hb. unfold hs_SkSlI, hr_SkSlI. rewrite ESS, EI, (ED b Hb). reflexivity. }
+  assert (E4 : forall a b, (a < kc)%nat -> hs_ISkIl Xs Ks a b == hr_ISkIl Xr Ks a b).
+  { intros a b Ha. unfold hs_ISkIl, hr_ISkIl. rewrite ESI, EI, (ED a Ha). reflexivity. }
+  split; [|split].
+  - unfold hs_dSk, hr_dSk. rewrite EI. ring.
+  - unfold hs_dSkSl, hr_dSkSl. rewrite !E3 by assumption. ring.
+  - unfold hs_dSkIl, hr_dSkIl. rewrite E3, E4, ESI by assumption. ring.
+Qed.
+
+(* C07 (c): a single degree class k (what the *_from_graph wrappers build on a k-regular graph) is the homogeneous
+   pairwise model with n = k.  Heterogeneous layout (S, SS, SI) / (S, I, SS, SI), homogeneous (S, SI, SS) / (S, I, SI, SS). *)
+Ltac hp_compute :=
+  cbv [dSIS_heterogeneous_pairwise dSIR_heterogeneous_pairwise tab tab2 hs_kc hr_kc
+       hs_dSk hs_dSkSl hs_dSkIl hs_Ik hs_SkI hs_IkIl hs_kxSk hs_SkSlI hs_ISkIl hs_Sk hs_SkSl hs_SkIl
+       hr_dSk hr_dIk hr_dSkSl hr_dSkIl hr_Ik hr_SkI hr_den hr_SkSlI hr_ISkIl hr_Sk hr_SkSl hr_SkIl
+       sumn vsum sumQ seq map flat_map app fold_right length Nat.add Nat.mul vnth nth].
+Lemma hpSIS_single_class S SS SI N k tau gamma t :
+  ~ k == 0 -> ~ S == 0 ->
+  let small := dSIS_homogeneous_pairwise [S; SI; SS] t N k tau gamma in
+  veq (dSIS_heterogeneous_pairwise [S; SS; SI] [N] [N * k] tau gamma [k] t) [vnth 0 small; vnth 2 small; vnth 1 small].
+Proof.
+  intros Hk HS small. unfold small, dSIS_homogeneous_pairwise. hp_compute.
+  assert (Hg : guard0 (k * (1 * S)) == k * S) by (rewrite guard0_nz; [ring|]; apply Qmult_nz; [exact Hk|]; intro H; apply HS; lra).
+  repeat constructor; rewrite ?Hg; field; repeat split; assumption.
+Qed.
+Lemma hpSIR_single_class S I SS SI k tau gamma t :
+  ~ k == 0 -> ~ S == 0 ->
+  let small := dSIR_homogeneous_pairwise [S; I; SI; SS] t k tau gamma in
+  veq (dSIR_heterogeneous_pairwise [S; I; SS; SI] tau gamma [k] t) [vnth 0 small; vnth 1 small; vnth 3 small; vnth 2 small].
+Proof.
+  intros Hk HS small. unfold small, dSIR_homogeneous_pairwise. hp_compute.
+  assert (Hg1 : guard0 (1 * k) == k) by (rewrite guard0_nz; [ring|]; intro H; apply Hk; lra).
+  assert (Hg2 : guard0 (1 * S) == S) by (rewrite guard0_nz; [ring|]; intro H; apply HS; lra).
+  repeat constructor; rewrite ?Hg1, ?Hg2; field; repeat split; assumption.
+Qed.
